@@ -15,5 +15,6 @@ def check(A):
         R.response_rules(A, fl, 'C04', parts=('errors',))
         R.trigger_event_rules(A, fl, 'C04')
         S.ping_task_rules(A, fl, 'C04')
+    R.driver_fifo_rule(A, 'C04')
     from . import C02
     C02.check(A, only_decode=True, prefix='C04')
